@@ -69,6 +69,8 @@ def starts3(tier):
 def tpairs(tier):
     out = [('0/0', np.zeros(3), np.zeros(3)), ('g/g2', np.array([0.5, -1.5, 2.0]), np.array([-2.0, 1.0, 0.5])),
            ('1e-6/1e3', 1e-6 * np.ones(3), 1e3 * alph.unit((1, 2, 3))), ('1e6/-1e6', 1e6 * alph.unit((1, 2, 3)), -1e6 * alph.unit((3, 1, 2)))]
+    # a short move far from the origin (the two positions are "close" by any relative test, the move is still far above the tolerance)
+    out += [('1e6/+5', 1e6 * np.ones(3), 1e6 * np.ones(3) + np.array([5.0, -3.0, 2.0])), ('1e3/+2e-3', 1e3 * np.ones(3), 1e3 * np.ones(3) + np.array([2e-3, -1e-3, 3e-3]))]
     if tier != 'quick':
         out += [('1/1', np.ones(3), np.ones(3)), ('0/1e6', np.zeros(3), 1e6 * alph.unit((0, 1, 0)))]
     return out
